@@ -609,6 +609,8 @@ class StructRun(object):
                         continue
                     cur = kw[k]
                     if cur is None or cur == []:
+                        cur = getattr(self, "discovered", {}).get((key, k))
+                    if cur is None or cur == []:
                         cur = self.kwarg_candidate(k)
                     pairs = falsy_pairs(cur)
                     if not pairs and (cur is None or cur == []):
@@ -729,6 +731,9 @@ class StructRun(object):
             pc["stats"] = st
             for k, n in st.items():
                 self.stats[k] = self.stats.get(k, 0) + n
+        import codec_fields
+        codec_fields.discover_phase(self)
+        codec_fields.nested_phase(self)
         self.falsy_phase()
         return self
 
